@@ -1468,7 +1468,7 @@ def running_max_attained(S, spec, tagname):
     return W, inst
 
 
-@script(["C09", "C06"], "Assertion.set_p_values/post (unbounded number of assertions per contest; 2 contests)", optional=True)
+@script(["C09", "C06", "C10"], "Assertion.set_p_values/post (unbounded number of assertions per contest; 2 contests)", optional=True)
 def set_p_values_unbounded(S, I, variant):
     c = ctx()
     contests, specs = {}, {}
